@@ -128,6 +128,9 @@ func c17RunEngineRange(r *h.Result, sc *fakes.Script, c *c17RngCase) error {
 			return nil
 		})
 	}
+	if strings.Contains(got, "{} =>") && !strings.Contains(want, "{} =>") && c.End/c17DayMs > (c.Start-300000)/c17DayMs {
+		key = "C17/engine-range-series-unlabelled"
+	}
 	if key == "C17/engine-range-result-differs" {
 		bucketed, err := run(bucketStore{c.Series})
 		if err != nil {
@@ -274,6 +277,10 @@ func c17EngineRangeStream(r *h.Result, rng *h.Rng, n int) error {
 	defer sc.Close()
 	for i := 0; i < n; i++ {
 		c := c17GenEngineRange(rng)
+		if rng.Chance(10) {
+			c = c17GenEngineRangeDays(rng) // the range crosses a UTC midnight
+			r.Count("engine-range:range crosses a UTC midnight")
+		}
 		if err := c17RunEngineRange(r, sc, &c); err != nil {
 			return err
 		}
